@@ -2111,6 +2111,10 @@ def check_C05(A, R, tier):
     # they end in an internal error that drops the rest of the batch - the failure signals included - and nothing is ever ready again
     from rules_compare import rule_failure_cancels_considers
     rule_failure_cancels_considers(A, R, "R5.10")
+    # R5.11 (= R6.12): nothing between the requirement summary and its callers overrides a dependency flagged as needed (the
+    # override ends in an internal error for an Always consumer, and the Ephemeral stays parked for good)
+    from rules_c04 import rule_summary_wrappers_transparent
+    rule_summary_wrappers_transparent(A, R, "R5.11")
     # R5.4 signals emitted while handling are not lost: the local signal list is moved into the queue
     sp = A.signal_processor()
     run = H[(K["done"], sorted(C["Finished"])[0])]
